@@ -130,6 +130,10 @@ func c08Ops(tier string, fracs []string) func(n *engine.Node) []world.Op {
 			}
 		}
 		ops = append(ops, world.Op{K: world.KRedelegate, D: 1, V: 0, V2: 1, Denom: "aaa", Amt: "300", Class: ClsUser})
+		// a second source into the same destination (fan-in: V0 -> V1 and V2 -> V1 in one block share one primary record)
+		if _, ok := s.FindPos(0, 2, "aaa"); ok {
+			ops = append(ops, world.Op{K: world.KRedelegate, D: 0, V: 2, V2: 1, Denom: "aaa", Amt: "300", Class: ClsUser})
+		}
 		for _, d := range []int{0, 1} {
 			for _, v := range []int{0, 1} {
 				if _, ok := s.FindPos(d, v, "aaa"); ok {
@@ -182,7 +186,7 @@ func c08AbortSeed() []world.Op {
 func init() {
 	seed := []world.Op{
 		opDel(0, 0, "aaa", "1000"), opDel(0, 1, "aaa", "1000"), opDel(1, 0, "aaa", "1000"), opDel(1, 1, "aaa", "1000"),
-		opDel(0, 0, "bbb", "1000"),
+		opDel(0, 0, "bbb", "1000"), opDel(0, 2, "aaa", "1000"),
 	}
 	// second seed: bbb staked with amounts and a prior 50% slash that make its share price non-representable (5/6), so that
 	// full exits leave sub-unit validator-share dust behind; the asset can then be emptied and deleted by governance
